@@ -807,10 +807,10 @@ fn contents_alphabet(n: usize) -> Vec<Term> {
         Some(b"x\na\nm\np\n".to_vec()),
         Some(b"x\nb\nm\np\n".to_vec()),
         Some(b"x\nc\nm\nq\n".to_vec()),
+        Some(b"x\n<<<<<<< k\nm\np\n".to_vec()),
         Some(b"a\n".to_vec()),
         Some(b"x\nc\nm\np".to_vec()),
         Some(b"".to_vec()),
-        Some(b"x\n<<<<<<< k\nm\np\n".to_vec()),
         Some(b"x\r\nb\r\nm\r\np\r\n".to_vec()),
     ];
     all.into_iter().take(n).collect()
@@ -838,6 +838,8 @@ struct Tally {
     wc_skipped_not_applicable: u64,
     wc_exec_differs: u64,
     wc_edits: u64,
+    wc_unedited_redundant_with_markers: u64,
+    wc_edits_redundant: u64,
 }
 
 impl Tally {
@@ -862,6 +864,8 @@ impl Tally {
         self.wc_skipped_not_applicable += o.wc_skipped_not_applicable;
         self.wc_exec_differs += o.wc_exec_differs;
         self.wc_edits += o.wc_edits;
+        self.wc_unedited_redundant_with_markers += o.wc_unedited_redundant_with_markers;
+        self.wc_edits_redundant += o.wc_edits_redundant;
     }
     fn record_unedited(&mut self, info: &Info) {
         self.evals += 1;
@@ -909,6 +913,8 @@ impl Tally {
             "wc_route_not_applicable (path resolved by the tree merge, or no resolved region to edit)": self.wc_skipped_not_applicable,
             "wc_route_cases_with_executable_bit_difference": self.wc_exec_differs,
             "wc_route_edit_cases": self.wc_edits,
+            "wc_route_unedited_with_redundant_pairs_and_markers": self.wc_unedited_redundant_with_markers,
+            "wc_route_edits_on_conflicts_with_redundant_pairs": self.wc_edits_redundant,
         })
     }
 }
@@ -975,12 +981,14 @@ fn main() {
     ];
     let merge_cfgs = &all_merge_cfgs[..ctx.pick(2, 4)];
     // (arity, number of contents) per family
-    let direct_families: Vec<(usize, usize)> = ctx.pick(vec![(3, 9), (5, 5)], vec![(3, 9), (5, 7), (7, 4)]);
-    let wc_families: Vec<(usize, usize)> = ctx.pick(vec![(3, 5)], vec![(3, 7), (5, 4)]);
+    let direct_families: Vec<(usize, usize)> = ctx.pick(vec![(3, 9), (5, 5)], vec![(3, 9), (5, 9), (7, 4)]);
+    let wc_families: Vec<(usize, usize)> = ctx.pick(vec![(3, 5), (5, 4)], vec![(3, 9), (5, 5)]);
     let wc_styles: Vec<ConflictMarkerStyle> =
         ctx.pick(vec![ConflictMarkerStyle::Diff, ConflictMarkerStyle::Git], STYLES.to_vec());
 
-    let samples = Samples::new(8);
+    let samples = Samples::new(3);
+    let samples_edit = Samples::new(3);
+    let samples_wc = Samples::new(4);
     let mut total = Tally::default();
     let mut extra: BTreeMap<String, Value> = BTreeMap::new();
     let mut spaces = vec![];
@@ -1015,7 +1023,7 @@ fn main() {
                                 match direct_one(env, &p, style, None) {
                                     Ok(info) => {
                                         tally.record_unedited(&info);
-                                        if info.simplified_smaller && info.has_markers && idx % 37 == 0 {
+                                        if info.simplified_smaller && info.has_markers && idx % 37 == 0 && style == ConflictMarkerStyle::Snapshot {
                                             samples.offer(|| direct_case_json(&terms, style, mc, None));
                                         }
                                     }
@@ -1029,8 +1037,8 @@ fn main() {
                                         match direct_one(env, &p, style, Some(&e)) {
                                             Ok(info) => {
                                                 tally.record_edit(&info, &e);
-                                                if info.simplified_smaller && info.absent_became_present && idx % 41 == 0 {
-                                                    samples.offer(|| direct_case_json(&terms, style, mc, Some(&e)));
+                                                if info.simplified_smaller && info.absent_became_present && idx % 41 == 0 && style == ConflictMarkerStyle::Git {
+                                                    samples_edit.offer(|| direct_case_json(&terms, style, mc, Some(&e)));
                                                 }
                                             }
                                             Err(f) => {
@@ -1128,9 +1136,14 @@ fn main() {
                                                     tally.wc_exec_differs += 1;
                                                 }
                                                 match edit_index {
-                                                    None => tally.record_unedited(&info),
+                                                    None => {
+                                                        tally.record_unedited(&info);
+                                                        tally.wc_unedited_redundant_with_markers +=
+                                                            (info.simplified_smaller && info.has_markers) as u64;
+                                                    }
                                                     Some(_) => {
                                                         tally.wc_edits += 1;
+                                                        tally.wc_edits_redundant += info.simplified_smaller as u64;
                                                         // kind is not known here; count as insert/delete via evals only
                                                         tally.evals += 1;
                                                         tally.nontrivial += 1;
@@ -1142,7 +1155,7 @@ fn main() {
                                                     }
                                                 }
                                                 if info.simplified_smaller && info.has_markers && idx % 29 == 0 {
-                                                    samples.offer(|| wc_case_json(&terms, exec, style, mc, edit_index));
+                                                    samples_wc.offer(|| wc_case_json(&terms, exec, style, mc, edit_index));
                                                 }
                                             }
                                             Err(f) => {
@@ -1206,7 +1219,7 @@ fn main() {
                file on disk really contains conflict markers (unedited clause) or is an edit of such a file; files \
                whose simplified conflict merges cleanly are evaluated for the unedited clause but counted as trivial"
             .into(),
-        samples: samples.take(),
+        samples: [samples.take(), samples_edit.take(), samples_wc.take()].concat(),
         exhaustive: true,
         extra,
         assumptions: vec![
